@@ -177,6 +177,34 @@ def r2_map_unmap(r, facts):
                     done.append(l2)
                 if rv['k'] == 'agg' and rv.get('variant') == 'Ok' and s['lhs']['l'] == 0 and any(ptr_expr_pred(eb.operand(o)) for o in rv['ops'] if 'l' in o):
                     done.append(l2)
+            # a clean-up guard (a local type whose Drop unmaps): it covers the error paths only if it is dropped there, and it
+            # must be defused (mem::forget) on every path that hands the mapping to the returned owner — otherwise the ring
+            # memory is unmapped while the owner still uses it
+            for l2, s in f.assigns():
+                rv = s['rv']
+                if not (rv['k'] == 'agg' and rv.get('ak') == 'adt' and s['lhs'].get('p') == []):
+                    continue
+                gty = rv.get('adt') or ''
+                gdrop = facts.fn_opt('<%s as std::ops::Drop>::drop' % gty)
+                if gdrop is None or gty in ('io_uring::Shared', 'io_uring::cq::Completions') or not any((t3.get('callee') or '') == 'io_uring::munmap' for _, t3 in gdrop.calls()):
+                    continue
+                if not any(_same_mapping_expr(f, eb.operand(o), loc) and ptr_expr_pred(eb.operand(o)) for o in rv['ops'] if 'l' in o):
+                    continue
+                gl = s['lhs']['l']
+                aliases = {gl}
+                for l3, s3 in f.assigns():
+                    if s3['rv']['k'] == 'use' and 'l' in s3['rv']['op'] and not s3['rv']['op']['p'] and s3['rv']['op']['l'] in aliases and not s3['lhs']['p']:
+                        aliases.add(s3['lhs']['l'])
+                forgets = [l3 for l3, t3 in f.calls() if (t3.get('callee') or '') == 'std::mem::forget' and t3['args'] and 'l' in t3['args'][0] and t3['args'][0]['l'] in aliases]
+                nxt = Loc(l2[0], l2[1] + 1)
+                r.inst('%s: unmap guard %s for mapping #%d, defused at %d site(s)' % (name, gty, idx, len(forgets)), f.where(l2))
+                hit = f.forward_paths_hit([nxt], rets, blockers=forgets, stop_env=lambda env: env.get(('D', 0)) == 1)
+                r.require(hit is None and forgets, '%s/guard-not-defused%d' % (name, idx), 'the unmap guard for mapping #%d is still armed on a path that returns the owner (not passed to mem::forget): the mapping is unmapped at the end of %s while the returned value still uses it, and again when that is dropped' % (idx, name), f.where(l2))
+                for fl_ in forgets:
+                    tt_ = f.at(fl_)
+                    if tt_.get('target') is not None:
+                        hit = f.forward_paths_hit([Loc(tt_['target'], 0)], rets, stop_env=lambda env: env.get(('D', 0)) == 0)
+                        r.require(hit is None, '%s/guard-defused-early%d' % (name, idx), 'the unmap guard for mapping #%d is defused before the last step that can fail: that error path leaks the mapping' % idx, f.where(fl_))
             r.inst('%s: mapping #%d released/stored at %d site(s)' % (name, idx, len(done)), f.where(loc))
             hit = f.forward_paths_hit([start], rets, blockers=done)
             r.require(hit is None, '%s/leak-map%d' % (name, idx), 'a path from a successful mapping to a function exit neither unmaps it nor stores it in the returned owner (mapping leaks on that error path)', f.where(hit[0]) if hit else f.where(loc))
